@@ -897,8 +897,10 @@ class Deb822(Deb822Dict):
                    encoding,         # type: str
                    ):
         # type: (...) -> None
-        for entry in self._dump_format():
-            fd.write(entry.encode(encoding))
+        # The text is encoded as a whole: entry by entry, a codec that writes
+        # a byte order mark (utf-8-sig, utf-16, utf-32) would write one in
+        # front of every field.
+        fd.write(self._dump_str().encode(encoding))
 
     def _dump_fd_t(self,
                    fd,               # type: IO[str]
